@@ -159,6 +159,14 @@ func (c *immuClient) VerifyRow(ctx context.Context, row *schema.Row, table strin
 		return err
 	}
 
+	if vEntry.SqlEntry == nil || vEntry.InclusionProof == nil {
+		return store.ErrCorruptedData
+	}
+
+	if err := checkVerifiableTx(vEntry.VerifiableTx); err != nil {
+		return err
+	}
+
 	if len(vEntry.PKIDs) < len(pkVals) {
 		return ErrIllegalArguments
 	}
@@ -334,6 +342,11 @@ func decodeRow(encodedRow []byte, colTypes map[uint32]sql.SQLValueType, maxColID
 
 	colsCount := binary.BigEndian.Uint32(encodedRow[off:])
 	off += sql.EncLenLen
+
+	// every column takes at least an id and a length
+	if int64(colsCount) > int64(len(encodedRow)-off)/int64(sql.EncIDLen+sql.EncLenLen) {
+		return nil, sql.ErrCorruptedData
+	}
 
 	values := make(map[uint32]*schema.SQLValue, colsCount)
 
